@@ -385,7 +385,7 @@ def run(tier, seed):
 
     # ---------------- (c) generated chains under a test horizon
     keys = chaingen.Keys()
-    ntrees = 3 if tier == 'quick' else 15
+    ntrees = 3 if tier == 'quick' else 40
     for trial in range(ntrees):
         with chaingen.Env(period=ck.rng.choice([3, 50])) as env0:
             tg = chaingen.TreeGen(env0, keys, ck.rng)
